@@ -62,6 +62,23 @@ CHECKS = {
        "fields / class arguments writable through self or a mutable receiver).",
   tech="TLA+ mutability rule as oracle; TLC-enumerated grid; TLC judges recorded verdicts",
   ref="DESIGN.md 9/C07"),
+ "C08": dict(
+  text="Same machinery with the grid of spec/MC_C08.tla: raised class (hierarchy of depth 3 + sibling) x how (call of a function "
+       "declaring raise, raise statement, call of a method declaring raise) x declared set x handled set x position (statement, "
+       "initialiser, inner context nestings, inside a handle arm, after a handle), in function and method bodies; expected "
+       "verdict MambaStatic.RaisesOK / DeclarableOK. The second half (emitted except clauses catch exactly the listed classes) "
+       "is decided by running the emitted code of the raise/handle programs of C01.",
+  note="Trusted: lib/render.py. Open known finding KF-C08-1 (raises of methods are never checked).",
+  tech="TLA+ raises rule as oracle; TLC-enumerated grid; TLC judges recorded verdicts",
+  ref="DESIGN.md 9/C08"),
+ "C09": dict(
+  text="TLC enumerates the use/def patterns of spec/MC_C09.tla under every context nesting and checks (R1) that the pattern "
+       "table agrees with the general definite-assignment analysis of spec/MambaScope.tla; the real verdicts are judged by TLC "
+       "running that analysis on each program's abstract syntax (strict and lenient reading give the allowed set).",
+  note="Trusted: lib/render.py. Open known findings KF-C09-1 (use of a function/class before its top-level definition), "
+       "KF-C09-2 (handled definition unusable in later branches).",
+  tech="TLA+ definite-assignment analysis (MambaScope) run by TLC on each program as oracle for recorded verdicts",
+  ref="DESIGN.md 9/C09"),
 }
 
 PENDING_REASON = "check not built yet in this snapshot (work in progress; see DESIGN.md section 13)"
